@@ -53,8 +53,10 @@ std::vector<Edge*> RealCommandRunner::GetActiveEdges() {
 }
 
 void RealCommandRunner::Abort() {
-  ClearJobTokens();
+  // Clear() waits for the commands it does not kill: their job slots stay
+  // taken until they are gone.
   subprocs_.Clear();
+  ClearJobTokens();
 }
 
 size_t RealCommandRunner::CanRunMore() const {
